@@ -335,8 +335,13 @@ def run_history(case: dict, want_store: bool = False, alias_probe: bool = True) 
         write_files(root, case["files"])
         shutil.copytree(root, envd)
         backend = Recorder()
-        project = Project(root, backend, {})
-        project.build(max_workers=WORKERS)
+        try:
+            project = Project(root, backend, {})
+            project.build(max_workers=WORKERS)
+        except Exception as e:
+            # the project cannot even be opened and built once: there is no open project whose history could be compared with anything
+            out["open_raised"] = f"{type(e).__name__}: {e}"[:200]
+            return out
         if want_store:
             out["stores"].append({"after": 0, "inc": store_snapshot(project)[0], "fresh": fresh_observation(envd, True)["store"], "env": env_hashes(envd)})
         ops = case["ops"]
